@@ -12,6 +12,7 @@ func init() {
 	register("C12", "Structural clause decided: (table) every SMP handler returns smpStateExpect1 on every path except its one full-success path, the abort helpers return (EXPECT1, abort message), an abort TLV resets to EXPECT1, and the only handlers that consume a message are those of the expecting state; (use-after-verify) every use of a peer SMP message — generating the reply, the final comparison, storing it in the waiting state, the success event — is behind the successful verifier of that message, whatever function it appears in; (verifiers) each verifier range-checks every group element of its message through the version's isGroupElement and checks every zero-knowledge proof with the specified index before accepting; (siblings) every implementation of otrVersion.isGroupElement implies the package-level range check; (dispatch) no dispatch on a nil SMP state; (parsing) each toSmpMessageN requires its element count; (user calls) a start in a running exchange sends the abort before the new first message, and Start/Provide establish the state machine first. Not decided: that a subsequent honest run succeeds; the number theory.",
 		func(a *An) {
 			a.smpStateWriters("W.smp-state")
+			a.smpStateCommittedLast("S.smp-commit-last")
 			a.zkpFormulas("P.zkp-formulas")
 			a.smpAcceptConditions("P.smp-accept")
 			a.smpTable("T.smp-table")
